@@ -19,6 +19,8 @@ func checkC12(c *Ctx) {
 	c.Rule("C12-R3", "protocol normalisation: SGR value-1 and motion bit cleared; X11 coordinates byte-33 and button byte-32")
 	c.Rule("C12-R4", "release ('m') and motion without a pressed button force 'no button' (|3, &^0x40); the press flag is cleared on release and set only by a non-motion, non-wheel press")
 	c.Rule("C12-R5", "both mouse parsers accept ESC [ and 0x9b as introducer")
+	c.Rule("C12-R8", "the rune parser, which runs before the mouse parsers, removes input only as decoded characters (with an event, or by the decoder's count): an 8-bit CSI (0x9b) it cannot decode stays in the buffer for the mouse parsers")
+	c.Expect("C12-R8", 2)
 	c.Rule("C12-R7", "the bytes of a report reach the parser as they were read (a chunk queued for the main loop owns its backing array)")
 	c.Expect("C12-R7", 1)
 	c.Rule("C12-R6", "the number-scanning state of the SGR parser (value, sign, digit-seen) is reset as a whole between parameters: every field transition that resets one of the accumulators resets all of them")
@@ -42,6 +44,11 @@ func checkC12(c *Ctx) {
 	c12Table(c, p)
 	c12Accumulators(c, p, sgr)
 	checkChunkOwnership(c, p, "C12-R7")
+	for _, pi := range inputParsers(p) {
+		if pi.fn.Name() == "parseRune" {
+			c.asRule("C02-R9", "C12-R8", func() { c02Consumption(c, p, pi) })
+		}
+	}
 	// R2
 	for _, call := range callsIn(bm, func(n string, _ *ssa.CallCommon) bool { return strings.HasSuffix(n, "NewEventMouse") }) {
 		cc := callCommon(call)
